@@ -49,6 +49,11 @@ func stringsOf(v ssa.Value) (vals []string, table bool, ok bool) {
 	if s, isC := constString(v); isC {
 		return []string{s}, false, true
 	}
+	// a string that starts with a constant: "Basic realm=\"" + realm + "\"": its leading constant
+	// (enough for the rules that look at the scheme keyword in front)
+	if lead, isL := leadingConst(v, 0); isL {
+		return []string{lead}, false, true
+	}
 	elems, _, isR := rangeElem(v)
 	if !isR {
 		return nil, false, false
@@ -189,4 +194,41 @@ func evalCondFrom(cond ssa.Value, b, pred *ssa.BasicBlock) (bool, bool) {
 		return false, false
 	}
 	return res != neg, true
+}
+
+// leadingConst: v is a concatenation whose leftmost operand is a non-empty constant string, or the
+// single result of a first-party helper every return of which is such a value with the same leading
+// constant.
+func leadingConst(v ssa.Value, depth int) (string, bool) {
+	v = strip(v)
+	if depth > 3 {
+		return "", false
+	}
+	if s, isC := constString(v); isC {
+		return s, s != ""
+	}
+	switch x := v.(type) {
+	case *ssa.BinOp:
+		if x.Op == token.ADD {
+			return leadingConst(x.X, depth+1)
+		}
+	case *ssa.Call:
+		h := x.Call.StaticCallee()
+		if h == nil || !IsFirstParty(h) || h.Blocks == nil {
+			return "", false
+		}
+		lead := ""
+		for _, r := range returnsOf(h) {
+			if len(r.Results) != 1 {
+				return "", false
+			}
+			l, ok := leadingConst(r.Results[0], depth+1)
+			if !ok || (lead != "" && l != lead) {
+				return "", false
+			}
+			lead = l
+		}
+		return lead, lead != ""
+	}
+	return "", false
 }
